@@ -32,29 +32,49 @@ func Spec_rejectAmbiguousKeys(src interface{}, target reflect.Type) {
 	}
 	switch target.Kind() {
 	case reflect.Struct:
-		if value.Kind() != reflect.Map || value.Type().Key().Kind() != reflect.String {
+		if value.Kind() != reflect.Map {
+			return
+		}
+		// C02: the decoder matches the string keys of maps keyed by strings and of maps keyed by interface{}
+		keyKind := value.Type().Key().Kind()
+		if keyKind != reflect.String && keyKind != reflect.Interface {
 			return
 		}
 		keys := make([]string, 0, value.Len())
+		mapKeys := make(map[string]reflect.Value, value.Len())
 		for _, k := range value.MapKeys() {
-			keys = append(keys, k.String())
+			name := k
+			if keyKind == reflect.Interface {
+				name = k.Elem()
+			}
+			if name.Kind() != reflect.String {
+				continue
+			}
+			keys = append(keys, name.String())
+			mapKeys[name.String()] = k
 		}
 		// sorted: which pair is reported does not depend on the order in which the keys were handed out
 		sort.Strings(keys)
+		// C08: only the keys that name a field are searched for by the decoder; any other key is not read at all, so a
+		// (disabled) entry carrying "note" and "Note" stays acceptable
+		fields := make(map[string]reflect.Type, target.NumField())
+		for i := 0; i < target.NumField(); i++ {
+			field := target.Field(i)
+			fields[Spec_foldKey(field.Name)] = field.Type
+		}
 		seen := make(map[string]string, len(keys))
 		for _, k := range keys {
 			folded := Spec_foldKey(k)
+			fieldType, isField := fields[folded]
+			if !isField {
+				continue
+			}
 			if other, taken := seen[folded]; taken {
 				panic(fmt.Errorf("keys '%s' and '%s' differ only in letter case", other, k))
 			}
 			seen[folded] = k
-		}
-		// the value of every field the decoder would fill is checked against the field's type
-		for i := 0; i < target.NumField(); i++ {
-			field := target.Field(i)
-			if key, ok := seen[Spec_foldKey(field.Name)]; ok {
-				Spec_rejectAmbiguousKeys(value.MapIndex(reflect.ValueOf(key).Convert(value.Type().Key())).Interface(), field.Type)
-			}
+			// the value of every field the decoder would fill is checked against the field's type
+			Spec_rejectAmbiguousKeys(value.MapIndex(mapKeys[k]).Interface(), fieldType)
 		}
 	case reflect.Slice, reflect.Array:
 		if value.Kind() != reflect.Slice && value.Kind() != reflect.Array {
